@@ -10,48 +10,51 @@ package main
 import (
 	"go/token"
 	"go/types"
+	"os"
+	"strings"
 
 	"golang.org/x/tools/go/ssa"
 )
 
 func init() {
-	addRound4("C18", "(J2) in proxy.Shutdown and in every composite server's Shutdown of package proxy, the start of one server's Shutdown(ctx) never waits for the Shutdown of another server to return: no loop that launches the per-server goroutines holds a blocking acquisition (send on / receive from a repository-made channel, semaphore Acquire, a select without default on one) whose release (the opposite channel operation, close, Release) a per-server goroutine performs only after its server's Shutdown returned (or deferred); no such acquisition lies on the way to the Shutdown call inside the goroutine; a goroutine does not call Shutdown of servers in a loop (a pool of workers draining a queue of servers); the group that starts the goroutines has no concurrency limit (errgroup SetLimit). A send on a channel made with room for every server (capacity len of the collection the launching loop ranges over) is no acquisition. Otherwise the listeners of the servers that wait keep accepting for a whole wait period after shutdown began and proxy.Shutdown takes a multiple of the configured wait.",
-		runC18J2,
-		// ---- breaks
-		mutant{Name: "J2 seed shape: slot channel of 8, taken in the loop, given back when the server's Shutdown returned", File: "proxy/serve.go", Old: c18SrcShutdown, New: c18SrcShutdownSlots, Expect: "C18.J2"},
-		mutant{Name: "J2 slot taken inside the goroutine before the per-server context is made", File: "proxy/serve.go", Old: c18SrcShutdown, New: c18SrcShutdownSlotsInside, Expect: "C18.J2"},
-		mutant{Name: "J2 acquire/release in helpers, goroutine is a named function", File: "proxy/serve.go", Old: c18SrcShutdown, New: c18SrcShutdownSlotsHelpers, Expect: "C18.J2"},
-		mutant{Name: "J2 token pool: a token is received before go and sent back after the Shutdown", File: "proxy/serve.go", Old: c18SrcShutdown, New: c18SrcShutdownTokenPool, Expect: "C18.J2"},
-		mutant{Name: "J2 pool of 8 workers draining a queue of servers", File: "proxy/serve.go", Old: c18SrcShutdown, New: c18SrcShutdownWorkers, Expect: "C18.J2"},
-		mutant{Name: "J2 errgroup with SetLimit(8)", File: "proxy/serve.go", Old: c18SrcShutdown, New: c18SrcShutdownErrgroupLimit, More: []repl{{c18ImportGrpc, c18ImportGrpcErrgroup}}, Expect: "C18.J2"},
-		mutant{Name: "J2 semaphore.Weighted acquired in the loop, released by the goroutine", File: "proxy/serve.go", Old: c18SrcShutdown, New: c18SrcShutdownSemaphore, More: []repl{{c18ImportGrpc, "\t\"golang.org/x/sync/semaphore\"\n" + c18ImportGrpc}}, Expect: "C18.J2"},
-		mutant{Name: "J2 every goroutine waits for the done channel of the one started before it", File: "proxy/serve.go", Old: c18SrcShutdown, New: c18SrcShutdownChain, Expect: "C18.J2"},
-		mutant{Name: "J2 select on slot or ctx.Done in the goroutine", File: "proxy/serve.go", Old: c18SrcShutdown, New: c18SrcShutdownSlotsSelect, Expect: "C18.J2"},
-		mutant{Name: "J2 go statement in a helper, the slot is taken by the loop of the caller", File: "proxy/serve.go", Old: c18SrcShutdown, New: c18SrcShutdownSlotsSplit, Expect: "C18.J2"},
-		mutant{Name: "J2 composite server throttles its children with a slot channel", File: "proxy/inetaf_tcpproxy.go", Old: c18SrcInetAfFanOut, New: c18SrcInetAfFanOutSlots, Expect: "C18.J2"},
-		// ---- the same devices used correctly
-		mutant{Name: "benign: slot channel with room for every server (capacity len(srvs))", File: "proxy/serve.go", Old: c18SrcShutdown, New: c18SrcShutdownSlotsLen, Expect: ""},
-		mutant{Name: "benign: slots limit only the work after the drain (taken after Shutdown returned)", File: "proxy/serve.go", Old: c18SrcShutdown, New: c18SrcShutdownSlotsAfter, Expect: ""},
-		mutant{Name: "benign: non-blocking try-acquire (select with default) only counted", File: "proxy/serve.go", Old: c18SrcShutdown, New: c18SrcShutdownSlotsTry, Expect: ""},
-		mutant{Name: "benign: errors collected on a buffered channel, drained after the join", File: "proxy/serve.go", Old: c18SrcShutdown, New: c18SrcShutdownErrChan, Expect: ""},
-		mutant{Name: "benign: errgroup with SetLimit(-1)", File: "proxy/serve.go", Old: c18SrcShutdown, New: c18SrcShutdownErrgroupNoLimit, More: []repl{{c18ImportGrpc, c18ImportGrpcErrgroup}}, Expect: ""},
-		mutant{Name: "benign: the loop waits until each goroutine has started (handshake before the drain)", File: "proxy/serve.go", Old: c18SrcShutdown, New: c18SrcShutdownStarted, Expect: ""},
-		mutant{Name: "benign: servers handed to their goroutines over an unbuffered channel, one goroutine per server", File: "proxy/serve.go", Old: c18SrcShutdown, New: c18SrcShutdownHandOver, Expect: ""},
+	addRound4("C18", "(J2) in proxy.Shutdown and in every composite server's Shutdown of package proxy, the start of one server's Shutdown(ctx) never waits for the Shutdown of another server to return: no loop that launches the per-server goroutines holds a blocking acquisition (send on / receive from a repository-made channel, semaphore Acquire, a select without default on one) whose release (the opposite channel operation, close, Release) a per-server goroutine performs only after its server's Shutdown returned (or deferred); no such acquisition lies on the way to the Shutdown call inside the goroutine; a goroutine does not call Shutdown of servers in a loop (a pool of workers draining a queue of servers); the group that starts the goroutines has no concurrency limit (errgroup SetLimit). A send on a channel made with room for every server (capacity at least len of the collection the launching loop ranges over, or of the collection that one was copied from) is no acquisition, nor is a limit of that size; an acquisition that is given back before the next launch / before the goroutine's own Shutdown call (a channel used as a lock around bookkeeping), or that only closes such a section, is none; a loop that repeats the same Shutdown call with the same context (a retry) is no queue of servers. Otherwise the listeners of the servers that wait keep accepting for a whole wait period after shutdown began and proxy.Shutdown takes a multiple of the configured wait.",
+		runC18J2, c18PickMutants(append([]mutant{
+			// ---- breaks
+			{Name: "J2 seed shape: slot channel of 8, taken in the loop, given back when the server's Shutdown returned", File: "proxy/serve.go", Old: c18SrcShutdown, New: c18SrcShutdownSlots, Expect: "C18.J2"},
+			{Name: "J2 slot taken inside the goroutine before the per-server context is made", File: "proxy/serve.go", Old: c18SrcShutdown, New: c18SrcShutdownSlotsInside, Expect: "C18.J2"},
+			{Name: "J2 acquire/release in helpers, goroutine is a named function", File: "proxy/serve.go", Old: c18SrcShutdown, New: c18SrcShutdownSlotsHelpers, Expect: "C18.J2"},
+			{Name: "J2 token pool: a token is received before go and sent back after the Shutdown", File: "proxy/serve.go", Old: c18SrcShutdown, New: c18SrcShutdownTokenPool, Expect: "C18.J2"},
+			{Name: "J2 pool of 8 workers draining a queue of servers", File: "proxy/serve.go", Old: c18SrcShutdown, New: c18SrcShutdownWorkers, Expect: "C18.J2"},
+			{Name: "J2 errgroup with SetLimit(8)", File: "proxy/serve.go", Old: c18SrcShutdown, New: c18SrcShutdownErrgroupLimit, More: []repl{{c18ImportGrpc, c18ImportGrpcErrgroup}}, Expect: "C18.J2"},
+			{Name: "J2 semaphore.Weighted acquired in the loop, released by the goroutine", File: "proxy/serve.go", Old: c18SrcShutdown, New: c18SrcShutdownSemaphore, More: []repl{{c18ImportGrpc, "\t\"golang.org/x/sync/semaphore\"\n" + c18ImportGrpc}}, Expect: "C18.J2"},
+			{Name: "J2 every goroutine waits for the done channel of the one started before it", File: "proxy/serve.go", Old: c18SrcShutdown, New: c18SrcShutdownChain, Expect: "C18.J2"},
+			{Name: "J2 select on slot or ctx.Done in the goroutine", File: "proxy/serve.go", Old: c18SrcShutdown, New: c18SrcShutdownSlotsSelect, Expect: "C18.J2"},
+			{Name: "J2 go statement in a helper, the slot is taken by the loop of the caller", File: "proxy/serve.go", Old: c18SrcShutdown, New: c18SrcShutdownSlotsSplit, Expect: "C18.J2"},
+			{Name: "J2 composite server throttles its children with a slot channel", File: "proxy/inetaf_tcpproxy.go", Old: c18SrcInetAfFanOut, New: c18SrcInetAfFanOutSlots, Expect: "C18.J2"},
+			// ---- the same devices used correctly
+			{Name: "benign: slot channel with room for every server (capacity len(srvs))", File: "proxy/serve.go", Old: c18SrcShutdown, New: c18SrcShutdownSlotsLen, Expect: ""},
+			{Name: "benign: slots limit only the work after the drain (taken after Shutdown returned)", File: "proxy/serve.go", Old: c18SrcShutdown, New: c18SrcShutdownSlotsAfter, Expect: ""},
+			{Name: "benign: non-blocking try-acquire (select with default) only counted", File: "proxy/serve.go", Old: c18SrcShutdown, New: c18SrcShutdownSlotsTry, Expect: ""},
+			{Name: "benign: errors collected on a buffered channel, drained after the join", File: "proxy/serve.go", Old: c18SrcShutdown, New: c18SrcShutdownErrChan, Expect: ""},
+			{Name: "benign: errgroup with SetLimit(-1)", File: "proxy/serve.go", Old: c18SrcShutdown, New: c18SrcShutdownErrgroupNoLimit, More: []repl{{c18ImportGrpc, c18ImportGrpcErrgroup}}, Expect: ""},
+			{Name: "benign: the loop waits until each goroutine has started (handshake before the drain)", File: "proxy/serve.go", Old: c18SrcShutdown, New: c18SrcShutdownStarted, Expect: ""},
+			{Name: "benign: servers handed to their goroutines over an unbuffered channel, one goroutine per server", File: "proxy/serve.go", Old: c18SrcShutdown, New: c18SrcShutdownHandOver, Expect: ""},
 
-		// ---- C18.O1, the family of the second patch: a tunnel is cut while the wait is still running
-		mutant{Name: "O1 seed shape: idle connections closed at every poll of the wait loop", File: "proxy/tcp/server.go", Old: c18SrcTCPShutdown, New: c18SrcTCPShutdownPollIdle, More: []repl{{c18SrcTCPConnsField, c18SrcTCPConnsFieldSeen}}, Expect: "C18.O1"},
-		mutant{Name: "O1 reaper goroutine started before the wait closes quiet connections", File: "proxy/tcp/server.go", Old: c18SrcTCPShutdown, New: c18SrcTCPShutdownReaper, More: []repl{{c18SrcTCPConnsField, c18SrcTCPConnsFieldSeen}}, Expect: "C18.O1"},
-		mutant{Name: "O1 read deadline 'now' set on every connection before the wait", File: "proxy/tcp/server.go", Old: c18SrcTCPShutdown, New: c18SrcTCPShutdownDeadlineNow, Expect: "C18.O1"},
-		mutant{Name: "O1 wait capped by a constant: a time.After case leads to closing the connections", File: "proxy/tcp/server.go", Old: c18SrcTCPShutdown, New: c18SrcTCPShutdownCapped, Expect: "C18.O1"},
-		mutant{Name: "O1 wait capped by a constant inside a wait helper", File: "proxy/tcp/server.go", Old: c18SrcTCPShutdown, New: c18SrcTCPShutdownCappedHelper, Expect: "C18.O1"},
-		mutant{Name: "O1 the wrapped connection is closed directly (c.c.Close) at the first poll", File: "proxy/tcp/server.go", Old: c18SrcTCPShutdown, New: c18SrcTCPShutdownPollInner, More: []repl{{c18SrcTCPConnsField, c18SrcTCPConnsFieldConcrete}, {"\t\tc, err := l.Accept()\n\t\tif err != nil {\n\t\t\treturn err\n\t\t}\n\t\tc = &conn{\n\t\t\tc:            c,", "\t\traw, err := l.Accept()\n\t\tif err != nil {\n\t\t\treturn err\n\t\t}\n\t\tc := &conn{\n\t\t\tc:            raw,"}, {"s.conns = map[net.Conn]bool{}", "s.conns = map[*conn]bool{}"}}, Expect: "C18.O1"},
-		mutant{Name: "benign: Shutdown polls the number of open connections and returns early, the rest is closed at the deadline", File: "proxy/tcp/server.go", Old: c18SrcTCPShutdown, New: c18SrcTCPShutdownPollCount, Expect: ""},
-		mutant{Name: "benign: poll loop in a helper that reports whether the deadline was hit", File: "proxy/tcp/server.go", Old: c18SrcTCPShutdown, New: c18SrcTCPShutdownPollHelper, Expect: ""},
-		mutant{Name: "benign: the context's own deadline set on every connection before the wait", File: "proxy/tcp/server.go", Old: c18SrcTCPShutdown, New: c18SrcTCPShutdownCtxDeadline, Expect: ""},
-		mutant{Name: "benign: select with a timer set to the context's own deadline", File: "proxy/tcp/server.go", Old: c18SrcTCPShutdown, New: c18SrcTCPShutdownOwnDeadlineTimer, Expect: ""},
-		mutant{Name: "benign: poll paced by time.After inside the loop, closeConns after the loop", File: "proxy/tcp/server.go", Old: c18SrcTCPShutdown, New: c18SrcTCPShutdownPollAfter, Expect: ""},
-		mutant{Name: "benign: watchdog goroutine started before the wait closes the connections once ctx is done", File: "proxy/tcp/server.go", Old: c18SrcTCPShutdown, New: c18SrcTCPShutdownCloserGoroutine, Expect: ""},
-		mutant{Name: "benign: goroutine started before the wait only lists the open connections", File: "proxy/tcp/server.go", Old: c18SrcTCPShutdown, New: c18SrcTCPShutdownStatsGoroutine, Expect: ""},
+			// ---- C18.O1, the family of the second patch: a tunnel is cut while the wait is still running
+			{Name: "O1 seed shape: idle connections closed at every poll of the wait loop", File: "proxy/tcp/server.go", Old: c18SrcTCPShutdown, New: c18SrcTCPShutdownPollIdle, More: []repl{{c18SrcTCPConnsField, c18SrcTCPConnsFieldSeen}}, Expect: "C18.O1"},
+			{Name: "O1 reaper goroutine started before the wait closes quiet connections", File: "proxy/tcp/server.go", Old: c18SrcTCPShutdown, New: c18SrcTCPShutdownReaper, More: []repl{{c18SrcTCPConnsField, c18SrcTCPConnsFieldSeen}}, Expect: "C18.O1"},
+			{Name: "O1 read deadline 'now' set on every connection before the wait", File: "proxy/tcp/server.go", Old: c18SrcTCPShutdown, New: c18SrcTCPShutdownDeadlineNow, Expect: "C18.O1"},
+			{Name: "O1 wait capped by a constant: a time.After case leads to closing the connections", File: "proxy/tcp/server.go", Old: c18SrcTCPShutdown, New: c18SrcTCPShutdownCapped, Expect: "C18.O1"},
+			{Name: "O1 wait capped by a constant inside a wait helper", File: "proxy/tcp/server.go", Old: c18SrcTCPShutdown, New: c18SrcTCPShutdownCappedHelper, Expect: "C18.O1"},
+			{Name: "O1 the wrapped connection is closed directly (c.c.Close) at the first poll", File: "proxy/tcp/server.go", Old: c18SrcTCPShutdown, New: c18SrcTCPShutdownPollInner, More: []repl{{c18SrcTCPConnsField, c18SrcTCPConnsFieldConcrete}, {"\t\tc, err := l.Accept()\n\t\tif err != nil {\n\t\t\treturn err\n\t\t}\n\t\tc = &conn{\n\t\t\tc:            c,", "\t\traw, err := l.Accept()\n\t\tif err != nil {\n\t\t\treturn err\n\t\t}\n\t\tc := &conn{\n\t\t\tc:            raw,"}, {"s.conns = map[net.Conn]bool{}", "s.conns = map[*conn]bool{}"}}, Expect: "C18.O1"},
+			{Name: "benign: Shutdown polls the number of open connections and returns early, the rest is closed at the deadline", File: "proxy/tcp/server.go", Old: c18SrcTCPShutdown, New: c18SrcTCPShutdownPollCount, Expect: ""},
+			{Name: "benign: poll loop in a helper that reports whether the deadline was hit", File: "proxy/tcp/server.go", Old: c18SrcTCPShutdown, New: c18SrcTCPShutdownPollHelper, Expect: ""},
+			{Name: "benign: the context's own deadline set on every connection before the wait", File: "proxy/tcp/server.go", Old: c18SrcTCPShutdown, New: c18SrcTCPShutdownCtxDeadline, Expect: ""},
+			{Name: "benign: select with a timer set to the context's own deadline", File: "proxy/tcp/server.go", Old: c18SrcTCPShutdown, New: c18SrcTCPShutdownOwnDeadlineTimer, Expect: ""},
+			{Name: "benign: poll paced by time.After inside the loop, closeConns after the loop", File: "proxy/tcp/server.go", Old: c18SrcTCPShutdown, New: c18SrcTCPShutdownPollAfter, Expect: ""},
+			{Name: "benign: watchdog goroutine started before the wait closes the connections once ctx is done", File: "proxy/tcp/server.go", Old: c18SrcTCPShutdown, New: c18SrcTCPShutdownCloserGoroutine, Expect: ""},
+			{Name: "benign: goroutine started before the wait only lists the open connections", File: "proxy/tcp/server.go", Old: c18SrcTCPShutdown, New: c18SrcTCPShutdownStatsGoroutine, Expect: ""},
+		}, c18Hardening3Mutants()...))...,
 	)
 }
 
@@ -328,18 +331,75 @@ func runC18J2(c *Ctx) {
 				}
 			}
 		}
-		roomy := func(mc *ssa.MakeChan) bool {
-			size := mc.Size
-			for {
-				if cv, ok := size.(*ssa.Convert); ok {
-					size = cv.X
-					continue
+		// (a ranged slice made with the length / capacity of another collection holds that collection's elements: a copy
+		// of the snapshot that is ranged over instead of the snapshot itself)
+		var sizedLike []ssa.Value
+		for v := range ranged {
+			derives(v, func(x ssa.Value) bool {
+				if ms, ok := x.(*ssa.MakeSlice); ok {
+					for _, n := range []ssa.Value{ms.Len, ms.Cap} {
+						if call, ok := isCallTo(c18StripConv(n), "builtin.len"); ok && len(call.Call.Args) == 1 {
+							sizedLike = append(sizedLike, call.Call.Args[0])
+						}
+					}
 				}
-				break
-			}
-			call, ok := isCallTo(size, "builtin.len")
-			return ok && len(call.Call.Args) == 1 && ranged[call.Call.Args[0]]
+				return false
+			})
 		}
+		for _, v := range sizedLike {
+			ranged[v] = true
+		}
+		isRanged := func(v ssa.Value) bool {
+			for r := range ranged {
+				if c18SameColl(r, v) {
+					return true
+				}
+			}
+			return false
+		}
+		// the capacity is at least the number of launches: len(v), len(v)+k, k*len(v), max(len(v), ..), or a variable
+		// that is one of these on every way
+		var covers func(size ssa.Value, d int) bool
+		covers = func(size ssa.Value, d int) bool {
+			size = c18StripConv(size)
+			if d > 4 {
+				return false
+			}
+			switch x := size.(type) {
+			case *ssa.BinOp:
+				for _, pair := range [][2]ssa.Value{{x.X, x.Y}, {x.Y, x.X}} {
+					n, isConst := constInt(pair[1])
+					if isConst && ((x.Op == token.ADD && n >= 0) || (x.Op == token.MUL && n >= 1)) && covers(pair[0], d+1) {
+						return true
+					}
+				}
+				if x.Op == token.SUB {
+					if n, isConst := constInt(x.Y); isConst && n <= 0 {
+						return covers(x.X, d+1)
+					}
+				}
+			case *ssa.Phi:
+				for _, e := range x.Edges {
+					if !covers(e, d+1) {
+						return false
+					}
+				}
+				return len(x.Edges) > 0
+			case *ssa.Call:
+				switch calleeName(&x.Call) {
+				case "builtin.len":
+					return len(x.Call.Args) == 1 && isRanged(x.Call.Args[0])
+				case "builtin.max":
+					for _, a := range x.Call.Args {
+						if covers(a, d+1) {
+							return true
+						}
+					}
+				}
+			}
+			return false
+		}
+		roomy := func(mc *ssa.MakeChan) bool { return covers(mc.Size, 0) }
 		// isGate: a blocking acquisition that is released only when some server's Shutdown has returned
 		isGate := func(i ssa.Instruction) bool {
 			op, ok := c18SyncOpOf(i)
@@ -369,26 +429,202 @@ func runC18J2(c *Ctx) {
 			return false
 		}
 
+		// undoes(gs): the instructions that give back what the gates gs took (the opposite channel operation, Release; a
+		// deferred one at the point where the deferred calls run): a slot that is given back before the next launch / before
+		// the goroutine's own drain is a short critical section (a channel used as a lock), not a limit on the drains
+		chanDirs := func(gs []ssa.Instruction) (same, undo func(ssa.Instruction) bool) {
+			send, recv := map[*ssa.MakeChan]bool{}, map[*ssa.MakeChan]bool{}
+			sem := false
+			for _, g := range gs {
+				op, _ := c18SyncOpOf(g)
+				sem = sem || op.acquire
+				if calleeNameOf(g) != "builtin.close" {
+					for _, ch := range op.sends {
+						for mc := range c18ChanRoots(ch) {
+							send[mc] = true
+						}
+					}
+				}
+				for _, ch := range op.recvs {
+					for mc := range c18ChanRoots(ch) {
+						recv[mc] = true
+					}
+				}
+			}
+			on := func(chans []ssa.Value, set map[*ssa.MakeChan]bool) bool {
+				for _, ch := range chans {
+					for mc := range c18ChanRoots(ch) {
+						if set[mc] {
+							return true
+						}
+					}
+				}
+				return false
+			}
+			// direct(opposite): i works on the gates' objects in the gates' direction / in the opposite direction
+			direct := func(i ssa.Instruction, opposite bool) bool {
+				op, ok := c18SyncOpOf(i)
+				if !ok {
+					return false
+				}
+				if opposite {
+					return (sem && op.release) || on(op.recvs, send) || on(op.sends, recv)
+				}
+				return (sem && op.acquire) || on(op.sends, send) || on(op.recvs, recv)
+			}
+			same = func(i ssa.Instruction) bool {
+				switch i.(type) {
+				case *ssa.Go, *ssa.Defer, *ssa.RunDefers:
+					return false
+				}
+				return direct(i, false)
+			}
+			undo = func(i ssa.Instruction) bool {
+				switch x := i.(type) {
+				case *ssa.Go, *ssa.Defer:
+					return false
+				case *ssa.RunDefers:
+					found := false
+					eachInstr(x.Parent(), func(d ssa.Instruction) {
+						df, isDefer := d.(*ssa.Defer)
+						if !isDefer || found || !dominatesInstr(d, i) {
+							return
+						}
+						if direct(df, true) {
+							found = true
+							return
+						}
+						for _, t := range c18Targets(&df.Call) {
+							if mustExec(t, func(k ssa.Instruction) bool { return direct(k, true) }, 1) {
+								found = true
+							}
+						}
+					})
+					return found
+				}
+				return direct(i, true)
+			}
+			return same, undo
+		}
+		undoes := func(gs []ssa.Instruction) func(ssa.Instruction) bool {
+			_, undo := chanDirs(gs)
+			return undo
+		}
+		// gatesAt: the gates instruction in executes: itself, or - a call - the gates of the repository functions it may
+		// run that can still be held when that function returns
+		gatesAt := func(in ssa.Instruction) []ssa.Instruction {
+			switch in.(type) {
+			case *ssa.Go, *ssa.Defer:
+				return nil
+			}
+			if isGate(in) {
+				return []ssa.Instruction{in}
+			}
+			call, ok := in.(*ssa.Call)
+			if !ok {
+				return nil
+			}
+			var out []ssa.Instruction
+			seen := map[*ssa.Function]bool{}
+			var walk func(f *ssa.Function, d int)
+			walk = func(f *ssa.Function, d int) {
+				if f == nil || seen[f] || d > 3 {
+					return
+				}
+				seen[f] = true
+				eachInstr(f, func(y ssa.Instruction) {
+					if _, isGo := y.(*ssa.Go); isGo {
+						return
+					}
+					if _, isDefer := y.(*ssa.Defer); !isDefer && isGate(y) {
+						if _, open := exitReachableAvoiding(y, undoes([]ssa.Instruction{y})); open {
+							out = append(out, y)
+						}
+						return
+					}
+					for _, g := range c18Targets(callCommon(y)) {
+						walk(g, d+1)
+					}
+				})
+			}
+			for _, g := range c18Targets(&call.Call) {
+				walk(g, 1)
+			}
+			return out
+		}
+		// closing: gate b only ends a critical section that the same function opened: on every way to b - from the entry
+		// of its function and from every launch / drain ys of it - the opposite operation (undo) was executed, so b takes
+		// back / puts back what this goroutine itself put in / took out and does not wait for anybody (`lock <- x;
+		// n++; <-lock` with a channel used as a lock: both halves look like acquisitions of a slot)
+		closing := func(b ssa.Instruction, ys []ssa.Instruction) bool {
+			if !isGate(b) {
+				return false
+			}
+			same, undo := chanDirs([]ssa.Instruction{b})
+			if c18EntryReaches(b, liftMust(undo, 1)) {
+				return false
+			}
+			// which direction acquires: the one of the first operation on the object; b's direction must not be it
+			either := func(i ssa.Instruction) bool { return same(i) || undo(i) }
+			ok := true
+			eachInstr(b.Parent(), func(s ssa.Instruction) {
+				if !ok || !same(s) {
+					return
+				}
+				if c18EntryReaches(s, either) || pathAvoiding(s, b, undo) {
+					ok = false // the function's first operation on the object goes b's way, or b repeats s with nothing given back between
+				}
+			})
+			for _, y := range ys {
+				if ok && y != b && y.Parent() == b.Parent() && pathAvoiding(y, b, undo) {
+					ok = false
+				}
+			}
+			return ok
+		}
+		earlier := func(pos *token.Pos, p token.Pos) {
+			if !pos.IsValid() || (p.IsValid() && p < *pos) {
+				*pos = p
+			}
+		}
+
 		key := fnKey(root)
-		// (a) the launching side
+		// (a) the launching side: a gate in a loop that launches, still held at the next launch
 		var gatePos token.Pos
 		gated := false
 		for _, h := range reg {
 			for _, l := range loopsOf(h) {
-				launches := false
-				var gates []ssa.Instruction
+				var launches []ssa.Instruction
 				for b := range l.Body {
 					for _, in := range b.Instrs {
 						if isFanAt(in) || c18Lifts(in, isFanAt) {
-							launches = true
-						}
-						if _, isDefer := in.(*ssa.Defer); !isDefer && !isFanAt(in) && c18Lifts(in, isGate) {
-							gates = append(gates, in)
+							launches = append(launches, in)
 						}
 					}
 				}
-				if launches && len(gates) > 0 {
-					gated, gatePos = true, gates[0].Pos()
+				if len(launches) == 0 {
+					continue
+				}
+				for b := range l.Body {
+					for _, in := range b.Instrs {
+						if isFanAt(in) {
+							continue
+						}
+						gs := gatesAt(in)
+						if len(gs) == 0 {
+							continue
+						}
+						undo := undoes(gs)
+						if closing(in, launches) {
+							continue
+						}
+						for _, y := range launches {
+							if y == in || pathAvoiding(in, y, undo) {
+								gated = true
+								earlier(&gatePos, in.Pos())
+							}
+						}
+					}
 				}
 			}
 		}
@@ -406,20 +642,29 @@ func runC18J2(c *Ctx) {
 					continue
 				}
 				eachInstr(h, func(b ssa.Instruction) {
-					if _, isDefer := b.(*ssa.Defer); isDefer || !c18Lifts(b, isGate) {
+					gs := gatesAt(b)
+					if len(gs) == 0 {
+						return
+					}
+					undo := undoes(gs)
+					if closing(b, xs) {
 						return
 					}
 					for _, x := range xs {
-						if x != b && pathAvoiding(b, x, nil) {
-							gated, gatePos = true, b.Pos()
+						if x != b && pathAvoiding(b, x, undo) {
+							gated = true
+							earlier(&gatePos, b.Pos())
 						}
 					}
 				})
-				// (c) one goroutine, one server
+				// (c) one goroutine, one server: a loop around the drain whose iterations drain different servers (or with
+				// a different context); a loop that repeats the same call - a retry of the goroutine's own server within
+				// the same deadline - is not a queue of servers
 				for _, l := range loopsOf(h) {
 					for _, x := range xs {
-						if l.Body[x.Block()] {
-							serial, serialPos = true, x.Pos()
+						if l.Body[x.Block()] && c18VariesIn(x, l) {
+							serial = true
+							earlier(&serialPos, x.Pos())
 						}
 					}
 				}
@@ -428,7 +673,7 @@ func runC18J2(c *Ctx) {
 		c.check("C18.J2", key+"|no per-server goroutine waits for another server's shutdown before it starts its own", gatePos, !gated,
 			"a per-server goroutine blocks, before it calls its server's Shutdown(ctx), on a channel / semaphore that is released only after another server's Shutdown returned: that server's listener keeps accepting until a slot is free (up to a whole wait period after shutdown began) and its own deadline starts late, so proxy.Shutdown takes a multiple of the configured wait")
 		c.check("C18.J2", key+"|one goroutine drains one server", serialPos, !serial,
-			"a goroutine calls Shutdown(ctx) of servers in a loop (a worker draining a queue of servers): the second server of a worker is not told to shut down before the first has finished - tcp.Server.Shutdown always takes its full deadline - so its listener keeps accepting and proxy.Shutdown takes a multiple of the configured wait")
+			"a goroutine calls Shutdown(ctx) in a loop whose iterations differ (a worker draining a queue of servers, or the same server again with a fresh context): the second server of a worker is not told to shut down before the first has finished - tcp.Server.Shutdown always takes its full deadline - so its listener keeps accepting and proxy.Shutdown takes a multiple of the configured wait")
 
 		// (d) the group that starts the goroutines is not limited
 		limited := false
@@ -441,6 +686,9 @@ func runC18J2(c *Ctx) {
 			if n, isConst := constInt(cc.Args[1]); isConst && n < 0 {
 				return // a negative limit means no limit
 			}
+			if covers(cc.Args[1], 0) {
+				return // as many slots as servers: nobody waits
+			}
 			limited, limPos = true, i.Pos()
 		})
 		c.check("C18.J2", key+"|the group that starts the per-server goroutines has no concurrency limit", limPos, !limited,
@@ -448,6 +696,169 @@ func runC18J2(c *Ctx) {
 	}
 	// the property needs the fan-out of proxy.Shutdown to be looked at (the composite server adds a second one)
 	c.atLeast("C18.J2", "places that start goroutines performing a server's Shutdown (proxy.Shutdown, composite servers)", nFans, 1)
+}
+
+// c18PickMutants: development aid, C18_MUTANT=<substring> restricts the mutants of this file like those of c18.go.
+func c18PickMutants(ms []mutant) []mutant {
+	want := os.Getenv("C18_MUTANT")
+	if want == "" {
+		return ms
+	}
+	var keep []mutant
+	for _, m := range ms {
+		if strings.Contains(m.Name, want) {
+			keep = append(keep, m)
+		}
+	}
+	return keep
+}
+
+// c18StripConv: v without the conversions around it.
+func c18StripConv(v ssa.Value) ssa.Value {
+	for {
+		switch x := v.(type) {
+		case *ssa.Convert:
+			v = x.X
+		case *ssa.ChangeType:
+			v = x.X
+		default:
+			return v
+		}
+	}
+}
+
+// c18SameColl: a and b denote the same collection: the same value, or two loads of the same struct field / of the same
+// package variable (`tps.children` read twice).
+func c18SameColl(a, b ssa.Value) bool {
+	if a == b {
+		return true
+	}
+	if fa, fb := c18FieldVarOf(a), c18FieldVarOf(b); fa != nil && fa == fb {
+		return true
+	}
+	la, okA := a.(*ssa.UnOp)
+	lb, okB := b.(*ssa.UnOp)
+	if okA && okB && la.Op == token.MUL && lb.Op == token.MUL {
+		ga, isA := la.X.(*ssa.Global)
+		gb, isB := lb.X.(*ssa.Global)
+		return isA && isB && ga == gb
+	}
+	return false
+}
+
+// c18VariesIn: instruction x, which lies in loop l, may work on different values in different iterations: one of its
+// operands is computed in the loop from something that changes there (the element of a range, a receive, a result of
+// a call, a variable assigned in the loop). A call whose operands are all the same in every iteration repeats itself.
+func c18VariesIn(x ssa.Instruction, l *loop) bool {
+	storedIn := func(addr ssa.Value) bool {
+		refs := addr.Referrers()
+		if refs == nil {
+			return true // a global / free variable: look at the stores of the loop's function
+		}
+		for _, r := range *refs {
+			if st, ok := r.(*ssa.Store); ok && st.Addr == addr && l.Body[st.Block()] {
+				return true
+			}
+		}
+		return false
+	}
+	storedInLoop := func(addr ssa.Value) bool {
+		switch a := addr.(type) {
+		case *ssa.Alloc:
+			return storedIn(a)
+		case *ssa.FreeVar, *ssa.Global:
+			hit := false
+			for b := range l.Body {
+				for _, in := range b.Instrs {
+					if st, ok := in.(*ssa.Store); ok && st.Addr == addr {
+						hit = true
+					}
+				}
+			}
+			return hit
+		}
+		return true
+	}
+	seen := map[ssa.Value]bool{}
+	var varies func(v ssa.Value, d int) bool
+	varies = func(v ssa.Value, d int) bool {
+		if v == nil || seen[v] {
+			return false
+		}
+		seen[v] = true
+		switch y := v.(type) {
+		case *ssa.Const, *ssa.Function, *ssa.Global, *ssa.Builtin, *ssa.Parameter, *ssa.FreeVar:
+			return false
+		case *ssa.MakeClosure:
+			// a closure made outside the loop whose captured variable is assigned in the loop works on something else each time
+			for _, b := range y.Bindings {
+				if _, isAlloc := b.(*ssa.Alloc); isAlloc && storedInLoop(b) {
+					return true
+				}
+			}
+			if !l.Body[y.Block()] {
+				return false
+			}
+			for _, b := range y.Bindings {
+				if _, isAlloc := b.(*ssa.Alloc); !isAlloc && varies(b, d+1) {
+					return true
+				}
+			}
+			return false
+		}
+		in, ok := v.(ssa.Instruction)
+		if !ok {
+			return true
+		}
+		if !l.Body[in.Block()] {
+			return false
+		}
+		if d > 8 {
+			return true
+		}
+		switch y := v.(type) {
+		case *ssa.UnOp:
+			if y.Op == token.MUL {
+				switch y.X.(type) {
+				case *ssa.Alloc, *ssa.FreeVar, *ssa.Global:
+					return storedInLoop(y.X)
+				}
+			}
+			if y.Op == token.ARROW {
+				return true
+			}
+			return varies(y.X, d+1)
+		case *ssa.Convert:
+			return varies(y.X, d+1)
+		case *ssa.ChangeType:
+			return varies(y.X, d+1)
+		case *ssa.ChangeInterface:
+			return varies(y.X, d+1)
+		case *ssa.MakeInterface:
+			return varies(y.X, d+1)
+		case *ssa.TypeAssert:
+			return varies(y.X, d+1)
+		case *ssa.FieldAddr:
+			return varies(y.X, d+1)
+		case *ssa.Field:
+			return varies(y.X, d+1)
+		case *ssa.BinOp:
+			return varies(y.X, d+1) || varies(y.Y, d+1)
+		case *ssa.Index:
+			return varies(y.X, d+1) || varies(y.Index, d+1)
+		case *ssa.IndexAddr:
+			return varies(y.X, d+1) || varies(y.Index, d+1)
+		case *ssa.Lookup:
+			return varies(y.X, d+1) || varies(y.Index, d+1)
+		}
+		return true // a phi of the loop, the element of a range, the result of a call ...
+	}
+	for _, op := range x.Operands(nil) {
+		if op != nil && *op != nil && varies(*op, 0) {
+			return true
+		}
+	}
+	return false
 }
 
 func calleeNameOf(i ssa.Instruction) string {
@@ -497,7 +908,8 @@ func c18FromCtxDeadline(v ssa.Value) bool {
 			return false
 		}
 		seen[v] = true
-		return derives(v, func(x ssa.Value) bool {
+		// (c18Derives: also through a field of the server the deadline was parked in)
+		return c18Derives(v, func(x ssa.Value) bool {
 			call, ok := x.(*ssa.Call)
 			if !ok {
 				return false
@@ -505,13 +917,17 @@ func c18FromCtxDeadline(v ssa.Value) bool {
 			if call.Call.IsInvoke() {
 				return call.Call.Method.Name() == "Deadline" && c18IsCtx(call.Call.Value.Type())
 			}
-			switch calleeName(&call.Call) {
-			case "time.Until", "(time.Time).Sub", "(time.Time).Add":
+			name := calleeName(&call.Call)
+			switch {
+			case name == "time.Until", name == "(time.Time).Sub", name == "(time.Time).Add":
 				for _, a := range call.Call.Args {
 					if from(a, d+1) {
 						return true
 					}
 				}
+			case strings.HasPrefix(name, "(time.Time).") && typeStr(call.Type()) == "time.Time" && len(call.Call.Args) > 0:
+				// the same instant in another representation: Round, Truncate, UTC, Local, In
+				return from(call.Call.Args[0], d+1)
 			}
 			return false
 		})
@@ -519,19 +935,73 @@ func c18FromCtxDeadline(v ssa.Value) bool {
 	return from(v, 0)
 }
 
-// c18CtxWait: i waits for nothing but the end of a context / a deadline (plain receive, or a select with that one case).
+// c18CtxWait: i waits for nothing but the end of a context (plain receive from ctx.Done(), a select with that one
+// case, or the same on a one-shot timer set to the context's own deadline). A wait on a timer of its own is none.
 func c18CtxWait(i ssa.Instruction) bool {
 	w, ok := c18WaitOf(i)
-	return ok && w.Deadline && w.Single
+	if !ok || !w.Deadline || !w.Single {
+		return false
+	}
+	for _, ch := range w.Chans {
+		if !c18CtxEndChan(ch) {
+			return false
+		}
+	}
+	return true
+}
+
+// c18CtxEndChan: ch becomes ready when a context ends: the Done channel of a context.Context, or a one-shot timer whose
+// duration is computed from the context's deadline.
+func c18CtxEndChan(ch ssa.Value) bool {
+	return derives(ch, func(x ssa.Value) bool {
+		call, ok := x.(*ssa.Call)
+		if !ok {
+			return false
+		}
+		if call.Call.IsInvoke() {
+			return call.Call.Method.Name() == "Done" && c18IsCtx(call.Call.Value.Type())
+		}
+		switch calleeName(&call.Call) {
+		case "time.After", "time.NewTimer":
+			return len(call.Call.Args) == 1 && c18FromCtxDeadline(call.Call.Args[0])
+		}
+		return false
+	})
+}
+
+// c18CtxCases: the first instructions of the select cases (of function f) that are chosen when a context ended, in
+// selects that have other cases too: what follows them runs after the end of the context like what follows a plain
+// <-ctx.Done().
+func c18CtxCases(f *ssa.Function) map[ssa.Instruction]bool {
+	out := map[ssa.Instruction]bool{}
+	eachInstr(f, func(i ssa.Instruction) {
+		sel, ok := i.(*ssa.Select)
+		if !ok {
+			return
+		}
+		for k, st := range sel.States {
+			if st.Dir != types.RecvOnly || !c18CtxEndChan(st.Chan) {
+				continue
+			}
+			if start := c18SelectCase(sel, k); start != nil && len(start.Block().Preds) == 1 {
+				out[start] = true
+			}
+		}
+	})
+	return out
 }
 
 // c18GoCuts: the goroutine started by g executes an instruction satisfying pred (directly or in what it calls) that
-// is not preceded, inside the goroutine, by a wait for the end of a context on every path.
+// is not preceded, inside the goroutine, by a wait for the end of a context on every path (a plain wait, or the case
+// of a select that the end of the context chooses).
 func c18GoCuts(g *ssa.Go, pred func(ssa.Instruction) bool) bool {
 	cuts := false
 	for _, t := range c18Targets(&g.Call) {
+		ctxCase := c18CtxCases(t)
+		waited := liftMust(c18CtxWait, 1)
+		after := func(i ssa.Instruction) bool { return ctxCase[i] || waited(i) }
 		eachInstr(t, func(y ssa.Instruction) {
-			if !cuts && c18Lifts(y, pred) && c18EntryReaches(y, liftMust(c18CtxWait, 1)) {
+			if !cuts && !ctxCase[y] && c18Lifts(y, pred) && c18EntryReaches(y, after) {
 				cuts = true
 			}
 		})
